@@ -4,6 +4,7 @@ package main
 
 import (
 	"bufio"
+	"context"
 	"fmt"
 	"io"
 	"os/exec"
@@ -454,17 +455,21 @@ func sexpInt(e sexp) (int64, bool) {
 
 // runOneShot runs a complete script on a fresh cvc5 process.
 func (s *Solver) runOneShot(script string, wantValues bool) (Result, string, error) {
+	return s.runOneShotCtx(context.Background(), script)
+}
+
+func (s *Solver) runOneShotCtx(ctx context.Context, script string) (Result, string, error) {
 	t0 := time.Now()
 	var cmd *exec.Cmd
 	switch s.name {
 	case "z3-1":
-		cmd = exec.Command("z3", "-in", "-t:"+strconv.Itoa(s.timeoutMs))
+		cmd = exec.CommandContext(ctx, "z3", "-in", "-t:"+strconv.Itoa(s.timeoutMs))
 		cmd.Stdin = strings.NewReader(preamble + script)
 	case "z3new-1":
-		cmd = exec.Command("z3-new", "-in", "-t:"+strconv.Itoa(s.timeoutMs))
+		cmd = exec.CommandContext(ctx, "z3-new", "-in", "-t:"+strconv.Itoa(s.timeoutMs))
 		cmd.Stdin = strings.NewReader(preamble + script)
 	default:
-		cmd = exec.Command("cvc5", "--lang=smt2", "--strings-exp", "--tlimit="+strconv.Itoa(s.timeoutMs))
+		cmd = exec.CommandContext(ctx, "cvc5", "--lang=smt2", "--strings-exp", "--tlimit="+strconv.Itoa(s.timeoutMs))
 		cmd.Stdin = strings.NewReader("(set-logic ALL)\n" + preamble + script)
 	}
 	out, _ := cmd.CombinedOutput()
@@ -489,7 +494,7 @@ func (s *Solver) runOneShot(script string, wantValues bool) (Result, string, err
 		atomic.AddInt64(&solverStats.unknowns, 1)
 		return Unknown, "", nil
 	}
-	if strings.TrimSpace(txt) == "" {
+	if strings.TrimSpace(txt) == "" || ctx.Err() != nil {
 		atomic.AddInt64(&solverStats.unknowns, 1)
 		return Unknown, "", nil
 	}
